@@ -243,3 +243,71 @@ func VH_C02_vacuity() {
 	verif.Assume(err == nil && out[0].Result.Value == uint64(ResultSuccess))
 	verif.Assert(false, "vacuity")
 }
+
+// VH_C02_inbatch: a transaction embedded after a plain write in the same
+// apply batch (two entries in one apply call, or one command sequence): its
+// predicates see the state immediately before it — including the earlier
+// write of the same batch — and exactly one branch runs.
+func VH_C02_inbatch(asSequence, maxN, maxK int) {
+	db := vhOpenDB()
+	ref := vhArbitraryStateSys(db, maxN, maxK, -1, true)
+	f := vhFSM(db, nil)
+	first := &regattapb.Command{Table: []byte("t")}
+	wk := vhArbKey(1, maxK)
+	switch verif.Choice(3) {
+	case 0:
+		wv := verif.Bytes(1)
+		first.Type, first.Kv = regattapb.Command_PUT, &regattapb.KeyValue{Key: wk, Value: wv}
+		ref.put(wk, wv)
+	case 1:
+		first.Type, first.Kv = regattapb.Command_DELETE, &regattapb.KeyValue{Key: wk}
+		ref.del(wk)
+	default:
+		first.Type, first.Kv, first.RangeEnd = regattapb.Command_DELETE, &regattapb.KeyValue{Key: wk}, wildcard
+		ref.delRange(wk, wildcard)
+	}
+	cmp := vhArbCompare(maxK)
+	sk, sv, fk, fv := vhArbKey(1, maxK), verif.Bytes(1), vhArbKey(1, maxK), verif.Bytes(1)
+	txn := &regattapb.Command{Table: []byte("t"), Type: regattapb.Command_TXN, Txn: &regattapb.Txn{
+		Compare: []*regattapb.Compare{cmp},
+		Success: []*regattapb.RequestOp{{Request: &regattapb.RequestOp_RequestPut{RequestPut: &regattapb.RequestOp_Put{Key: sk, Value: sv, PrevKv: true}}}},
+		Failure: []*regattapb.RequestOp{{Request: &regattapb.RequestOp_RequestPut{RequestPut: &regattapb.RequestOp_Put{Key: fk, Value: fv, PrevKv: true}}}},
+	}}
+	want := vhSpecCompareOne(ref, cmp)
+	var txnRes *regattapb.CommandResult
+	var last uint64
+	if asSequence != 0 {
+		out, err := f.Update([]sm.Entry{vhEntry(5, &regattapb.Command{Table: []byte("t"), Type: regattapb.Command_SEQUENCE, Sequence: []*regattapb.Command{first, txn}})})
+		verif.Assert(err == nil && len(out) == 1, "sequence applies")
+		all := vhResult(out[0])
+		verif.Assert(len(all.Responses) == 2, "sequence: response of the write, then of the transaction's operation")
+		if len(all.Responses) != 2 {
+			return
+		}
+		txnRes = &regattapb.CommandResult{Responses: all.Responses[1:]}
+		last = 5
+	} else {
+		out, err := f.Update([]sm.Entry{vhEntry(5, first), vhEntry(6, txn)})
+		verif.Assert(err == nil && len(out) == 2, "both entries apply")
+		verif.Assert((out[1].Result.Value == uint64(ResultSuccess)) == want, "succeeded == predicates on the state immediately before the transaction (incl. the earlier write of the batch)")
+		txnRes = vhResult(out[1])
+		last = 6
+	}
+	verif.Assert(len(txnRes.Responses) == 1, "exactly one branch operation executed")
+	if len(txnRes.Responses) == 1 {
+		if want {
+			old, had := ref.get(sk)
+			vhPutResp(txnRes.Responses[0], old, had, sk, true, "success branch put")
+			ref.put(sk, sv)
+			verif.Cover("success-branch")
+		} else {
+			old, had := ref.get(fk)
+			vhPutResp(txnRes.Responses[0], old, had, fk, true, "failure branch put")
+			ref.put(fk, fv)
+			verif.Cover("failure-branch")
+		}
+	}
+	ref.hasIndex, ref.index = true, last
+	vhWholeTable(f, ref, "after the batch")
+	verif.Cover("end")
+}
